@@ -149,18 +149,45 @@ def canon_model_reply(line):
 
 
 def gen_ops(rng, k, n):
-    ops, nsnap = [], 0
+    """Random history; biased towards the meaningful choices (merge a model that is not part of the combined model, unmerge one
+    that is - first, middle or last -, snapshot a non-empty model, roll back to a snapshot that exists) without excluding the
+    others.  `live` / `nsnap` follow what the calls are expected to do (a snapshot of an empty model does not get an index)."""
+    ops, nsnap, live, snaps_live = [], 0, [], []
     for _ in range(n):
         r = rng.random()
-        if r < 0.45:
-            ops.append(("merge", rng.randrange(k)))
-        elif r < 0.70:
-            ops.append(("unmerge", rng.randrange(k)) if rng.random() < 0.9 else ("unmerge", rng.choice(["primary", "nobody"])))
-        elif r < 0.85:
+        t_merge, t_unmerge, t_snap = (0.75, 0.85, 0.90) if not live else (0.35, 0.65, 0.82)
+        if r < t_merge:
+            free = [i for i in range(k) if i not in live]
+            i = rng.choice(free) if free and rng.random() < 0.85 else rng.randrange(k)
+            ops.append(("merge", i))
+            if i not in live:
+                live.append(i)
+        elif r < t_unmerge:
+            q = rng.random()
+            if live and q < 0.75:
+                i = rng.choice(live)            # any live model: first, middle or last
+                live.remove(i)
+                ops.append(("unmerge", i))
+            elif q < 0.9:
+                i = rng.randrange(k)
+                if i in live:
+                    live.remove(i)
+                ops.append(("unmerge", i))
+            else:
+                ops.append(("unmerge", rng.choice(["primary", "nobody"])))
+        elif r < t_snap:
             ops.append(("snapshot",))
-            nsnap += 1
+            if live:
+                snaps_live.append((nsnap, list(live)))
+                nsnap += 1
         else:
-            ops.append(("rollback", rng.randrange(nsnap + 1)))
+            if snaps_live and rng.random() < 0.7:
+                idx, lv = snaps_live.pop(rng.randrange(len(snaps_live)))
+                live = list(lv)
+                ops.append(("rollback", idx))
+            else:
+                ops.append(("rollback", rng.randrange(nsnap + 1)))
+                live = []
     return ops
 
 
@@ -211,7 +238,7 @@ def gen_cases(ctx, tag, nfam, nhist, with_ads=True, ads_perms=True):
         else:
             fam = malformed_family(rng)
             k = len(fam)
-        cases.append((fam, gen_ops(rng, k, rng.randrange(3, 14))))
+        cases.append((fam, gen_ops(rng, k, rng.randrange(3, 16))))
     if with_ads:
         ads = L.repo_ad_specs()
         fam = [ads[n] for n in L.ADS]
